@@ -27,6 +27,11 @@ import (
 )
 
 var w *hc.W
+
+var (
+	curProg   string
+	curParams []interface{}
+)
 var ti = &terminfo.Terminfo{}
 
 type tcase struct {
@@ -41,6 +46,7 @@ func evalImpl(prog string, params []interface{}) (out string, panicked interface
 			panicked = r
 		}
 	}()
+	curProg, curParams = prog, params
 	return ti.TParm(prog, params...), nil
 }
 
@@ -545,6 +551,9 @@ func space3() {
 
 func main() {
 	w = hc.Start("C07")
+	w.WatchStall(func() (string, string, interface{}) {
+		return "tparm", fmt.Sprintf("TParm(%q, %v) does not return", curProg, curParams), map[string]interface{}{"prog": curProg, "params": curParams}
+	})
 	w.R.Rule = "(1) every distinct parameterized string of every database entry, of LookupTerminfo's synthesized colour strings and of the sequences tcell prepares for itself (harvested from built screens), over its parameter domain: one parameter 0..1023, two parameters 0..1023 x edge set both ways (thorough: full 1024^2), three or more: each component 0..255 with the others at {0,128,255}, string parameters from a small set; (2) every program of a bounded terminfo(5) grammar (all binary/unary operators over leaf pairs, depth-2 expressions over a sub-alphabet, all printf formats, %i, dynamic/static variables incl. multi-call sequences, all conditional structures to nesting depth 2 (thorough 3) incl. else-if chains) x 72 integer or 6 string parameter vectors; (3) all byte strings up to length 5 (thorough 6) over the 16-symbol alphabet of the language for panics. Oracle: reference interpreter written from terminfo(5), cross-checked against ncurses tparm on integer-only cases. distinct_nontrivial = distinct (program, parameters) cases the manual defines"
 	w.R.Assumptions = []string{"cases the manual leaves undefined (stack underflow, type confusion, %c of 0, negative values with unsigned conversions, division by zero) are counted but not compared", "ncurses (python3 curses.tparm) is used only to validate the reference; disagreements are reported, not blamed on tcell"}
 	if *hc.Replay != "" {
